@@ -250,14 +250,18 @@ def g_sd(r, name):
         nopen = r.choice([2, 3, 6])
         for k in range(nopen):
             L.append("sdstart %d" % k)
-        if r.random() < 0.7:
-            L.append("sdend %d" % r.randrange(0, nopen - 1))
-        L += ["sdmax %d" % r.choice([0, 1, 2, 3, 5, 10, 36, 37, 38, 1000]), "sdgetmax", "sdnopen"]
+        for k in range(nopen - 1):          # close some of the lower positions: the highest one stays in use
+            if r.random() < 0.6:
+                L.append("sdend %d" % k)
+        L += ["sdmax %d" % r.choice([0, 1, 2, 3, nopen - 1, nopen, 5, 10, 36, 37, 38, 1000]), "sdgetmax", "sdnopen"]
+        closed = set(int(l.split()[1]) for l in L if l.startswith("sdend "))
         for k in range(nopen):
-            L += ["sdcreate %d 6 2" % k, "sdinfo %d" % k]
+            if k not in closed:
+                L += ["sdcreate %d 6 2" % k, "sdinfo %d" % k]
         L += ["sdstart 20", "sdcreate 20 4 1", "sdinfo 20", "sdend 20"]
         for k in range(nopen):
-            L.append("sdend %d" % k)
+            if k not in closed:
+                L.append("sdend %d" % k)
         L.append("sdnopen")
     return L
 
